@@ -176,8 +176,13 @@ func newModel(w *World) *Model {
 		for _, d := range w.Native[i] {
 			m.Denoms[i][d] = Denom{Base: d}
 			m.Supply0[i][d] = w.Supply(i, d).Amount.BigInt()
-			for k := 0; k < NAcct; k++ {
-				m.add(i, AcctLabel(k), d, big.NewInt(w.Fund))
+		}
+		// the ledger starts from the real genesis + funding state (ibctesting funds all ten
+		// accounts with its secondary denom "ufoo" at genesis)
+		for k, v := range w.BankOf(i) {
+			isSup, label, coin := SplitKey(k)
+			if !isSup {
+				m.add(i, label, coin, v)
 			}
 		}
 	}
